@@ -10,6 +10,7 @@ def parseAct (b : Bytes) : Option Act :=
   | [100] => some .drop
   | [115] => some .stall
   | [103] => some .garbage
+  | [116] => some .tlsBad
   | 114 :: a :: b' :: c :: 32 :: text =>
     if isDigit a && isDigit b' && isDigit c then
       some (.reply ((a.toNat - 48) * 100 + (b'.toNat - 48) * 10 + (c.toNat - 48)) text)
@@ -23,6 +24,7 @@ def parseAct (b : Bytes) : Option Act :=
 def verbName : Verb → String
   | .greeting => "greeting" | .ehlo => "EHLO" | .helo => "HELO" | .mail => "MAIL" | .rcpt => "RCPT" | .data => "DATA"
   | .eod => "eod" | .rset => "RSET" | .noop => "NOOP" | .quit => "QUIT" | .starttls => "STARTTLS" | .auth => "AUTH" | .other => "?"
+  | .handshake => "handshake" | .authStep => "auth-step" | .authAbort => "auth-abort"
 
 def evBytes : Ev → Option Bytes
   | .connect => some (sb "connect")
@@ -35,6 +37,8 @@ def evBytes : Ev → Option Bytes
   | .close => some (sb "close")
   | .deadline => some (sb "deadline")
   | .stall a => some (sb (if a then "stall-armed" else "stall-unarmed"))
+  | .tlsOn => some (sb "tls-on")
+  | .tlsFail => some (sb "tls-fail")
 
 def errTag : Option Err → String
   | none => "-"
@@ -43,6 +47,8 @@ def errTag : Option Err → String
   | some .closed => "closed" | some .invalidLine => "invalid" | some .noConn => "noconn"
   | some .deadlineFailed => "deadline" | some .noSender => "nosender" | some .noRcpts => "norcpts"
   | some .noUnencoded => "nounenc" | some .render => "render"
+  | some .tls => "tls" | some (.mech t) => "mech" ++ toString t | some .noAuthSupport => "noauth"
+  | some .authNotSupported => "authunsupported" | some .noStartTLS => "nostarttls"
 
 def sendErrStr (e : SendErr) : String :=
   encNat e.reason.toNat ++ " " ++ encBool e.isTemp ++ " " ++ encNat e.code ++ " " ++ encBytes e.esc ++ " " ++
@@ -77,6 +83,36 @@ def handle (toks : List String) : String :=
           " check=" ++ (match o.checkErr with | none => "-" | some e => sendErrStr e) ++
           " close=" ++ errTag o.closeErr ++ " open=" ++ encBool o.conn.cliOpen ++ " | " ++ res
     | _, _, _, _, _, _, _, _ => "bad-arg"
+  | "dial" :: caps :: script :: helo :: host :: policy :: implicit :: usessl :: atype :: user :: pass :: debug :: logauth ::
+      suser :: spass :: cnonce :: btype :: bbytes :: crypto :: hmacs :: [] =>
+    match decList caps, decList script, decBytes helo, decBytes host, decNat policy, decNat implicit, decNat usessl,
+          decBytes atype, decBytes user, decBytes pass, decNat debug, decNat logauth with
+    | some caps, some sc, some helo, some host, some pol, some imp, some ssl, some atyp, some user, some pass, some dbg, some la =>
+      match decList suser, decList spass, decBytes cnonce, decBytes btype, decList bbytes, decList crypto, decList hmacs, sc.mapM parseAct with
+      | some su, some sp, some cn, some bt, some bb, some cr, some hm, some acts =>
+        let rec table5 : List Bytes → List (Bytes × Bytes × Bytes × Bytes × Bytes)
+          | a :: b :: c :: d :: e :: rest => (a, b, c, d, e) :: table5 rest
+          | _ => []
+        let rec table2 : List Bytes → List (Bytes × Bytes)
+          | a :: b :: rest => (a, b) :: table2 rest
+          | _ => []
+        let ct := table5 cr
+        let ht := table2 hm
+        let crypto (salt : Bytes) (iter : Int) (am : Bytes) : Bytes × Bytes :=
+          match ct.find? (fun (s, i, m, _, _) => s == salt && i == sb (toString iter) && m == am) with
+          | some (_, _, _, p, v) => (p, v)
+          | none => ([], [])
+        let hmacHex (_ : Bytes) (ch : Bytes) : Bytes := match ht.find? (·.1 == ch) with | some (_, d) => d | none => []
+        let atype : AuthType := ([AuthType.noAuth, .autoDiscover, .cramMD5, .custom, .login, .loginNoEnc, .plain, .plainNoEnc,
+            .scramSHA1, .scramSHA1Plus, .scramSHA256, .scramSHA256Plus, .xoauth2].find? (fun t => sb t.name == atyp)).getD .noAuth
+        let policy : TLSPolicy := if pol == 0 then .mandatory else if pol == 1 then .opportunistic else .noTLS
+        let scramEnv : ScramEnv := { algorithm := [], user := su.head?, pass := sp.head?, cnonce := cn, bindType := bt, bindBytes := bb.head?, crypto := crypto }
+        let cfg : DialCfg := { helo := helo, host := host, policy := policy, implicitTLS := imp != 0, useSSL := ssl != 0, authType := atype, user := user, pass := pass, debug := dbg != 0, logAuthData := la != 0, hmacHex := hmacHex, scram := scramEnv }
+        let (c, e) := dial cfg acts caps
+        let logs := c.logs.map (fun r => (if r.c2s then sb "C " else sb ("S " ++ toString r.code ++ " ")) ++ r.text)
+        encList (c.trace.filterMap evBytes) ++ " dial=" ++ errTag e ++ " open=" ++ encBool c.cliOpen ++ " logs=" ++ encList logs
+      | _, _, _, _, _, _, _, _ => "bad-arg2"
+    | _, _, _, _, _, _, _, _, _, _, _, _ => "bad-arg"
   | _ => "bad-op"
 
 end SmtpOps
